@@ -69,6 +69,22 @@ var inertRe = []*regexp.Regexp{
 	regexp.MustCompile(`^sync/atomic\.`), // modelled explicitly where the address is a field; otherwise treated below
 }
 
+// functions with no heap effect other than writing into the backing arrays of their slice arguments
+var inertWritesArgsRe = []*regexp.Regexp{
+	regexp.MustCompile(`^encoding/binary\.`),
+	regexp.MustCompile(`^encoding/hex\.(Encode|Decode)$`),
+	regexp.MustCompile(`^crypto/rand\.Read$`),
+}
+
+func inertWritesArgs(key string) bool {
+	for _, r := range inertWritesArgsRe {
+		if r.MatchString(key) {
+			return true
+		}
+	}
+	return false
+}
+
 func isInert(key string) bool {
 	for _, r := range inertRe {
 		if r.MatchString(key) {
@@ -134,11 +150,28 @@ func (ex *Exec) callCommon(st *State, instr ssa.CallInstruction, c *ssa.CallComm
 		results = ex.applyContract(st, con, sfn, c, args, argTypes, resTypes, rec)
 	case ex.pureMode:
 		unsup("call to %s in pure function (callee has no pure contract)", shortKey(key))
-	case key != "" && isInert(key):
+	case key != "" && inertWritesArgs(key):
 		for _, t := range resTypes {
 			results = append(results, ex.freshVal("r."+short, t))
 		}
-		g.note("inert (no heap effect assumed): " + shortKey(key))
+		g.note("no heap effect assumed except writes into slice arguments: " + shortKey(key))
+		for i, a := range argVals {
+			if sl, ok := a.Type().Underlying().(*types.Slice); ok {
+				comp := g.arrComp(sl.Elem())
+				cur := g.get(st, comp)
+				fv := g.freshConst("hv", fmt.Sprintf("(Array Int %s)", g.sortOf(sl.Elem())))
+				g.set(st, comp, fmt.Sprintf("(store %s (s.arr %s) %s)", cur, args[i], fv))
+			}
+		}
+	case key != "" && (isInert(key) || (sfn != nil && ex.P.readOnly(sfn))):
+		for _, t := range resTypes {
+			results = append(results, ex.freshVal("r."+short, t))
+		}
+		if isInert(key) {
+			g.note("inert (no heap effect assumed): " + shortKey(key))
+		} else {
+			g.note("read-only by mechanical analysis (no heap effect; result arbitrary): " + shortKey(key))
+		}
 		// interior pointers passed to atomics etc.: havoc pointee
 		ex.havocEscapedAddrs(st, argVals)
 	default:
